@@ -315,6 +315,25 @@ class Outcome:
         return 0
 
 
+class ReplayOutcome(Outcome):
+    """`bin/check <ID> --replay <file>` for checks without a replay of their own: the quick tier is run again on the
+    current tree and the verdict is whether the recorded signature shows up again (no evidence file is written)."""
+
+    def __init__(self, pid, signature, path):
+        Outcome.__init__(self, pid, "quick")
+        self.signature = signature
+        self.path = path
+
+    def finish(self, level, coverage, assumptions=None):
+        sigs = {v[0] for v in self.violations}
+        if self.signature in sigs:
+            print("VIOLATION property=%s replay=%s" % (self.pid, self.path))
+            log("  signature %s reproduced on the current tree" % self.signature)
+            return 1
+        print("OK property=%s replay: signature %s not reproduced on the current tree (%d other signature(s))" % (self.pid, self.signature, len(sigs)))
+        return 0
+
+
 def selftest_fail(pid, what):
     """A check whose binding self-test did not reject a corrupted trace is a tool error, not a verdict."""
     raise ToolError("%s: self-test failed: %s" % (pid, what))
